@@ -8,6 +8,7 @@ cd $wt || exit 2
 out=/verif/seeded/$id; mkdir -p $out
 cp OUT/patch.diff $out/patch.diff; cp OUT/seed_demo.rs $out/seed_demo.rs 2>/dev/null; cp OUT/notes.md $out/notes.md 2>/dev/null
 export CARGO_NET_OFFLINE=true
+[ -n "$SEED_RUSTFLAGS" ] && export RUSTFLAGS="$SEED_RUSTFLAGS"
 git checkout -q -- src; mkdir -p tests; cp $out/seed_demo.rs tests/seed_demo.rs
 without=$(cargo test --offline --test seed_demo 2>&1 | grep -E "^test result" | tail -1)
 git apply $out/patch.diff || { echo "patch does not apply"; exit 2; }
@@ -18,7 +19,7 @@ mv /tmp/seed_demo_$id.rs tests/seed_demo.rs
 echo "demo WITHOUT change: $without"
 echo "demo WITH change:    $with"
 echo "suite WITH change:   $suite"
-cd /verif
+unset RUSTFLAGS; cd /verif
 if [ -n "$(git -C /repo status --porcelain --untracked-files=no)" ]; then echo "/repo is dirty"; exit 2; fi
 git -C /repo apply $out/patch.diff || { echo "patch does not apply to /repo"; exit 2; }
 res=""
